@@ -142,6 +142,13 @@ def run_hist(ro_text, msg_texts):
     return steps
 
 
+def encode_doc(t):
+    """the bytes of a document as a file or an S3 object holds it: in the encoding its XML declaration names"""
+    import re
+    m = re.match(r'''<\?xml[^>]*encoding=["']([^"']+)''', t)
+    return t.encode(m.group(1) if m else 'utf-8')
+
+
 def run_coll(texts, allow_incomplete, strict, how='strings', tmpdir=None, again=False):
     saved = None
     if how == 's3':
@@ -152,7 +159,7 @@ def run_coll(texts, allow_incomplete, strict, how='strings', tmpdir=None, again=
         for i, t in enumerate(texts):
             # key names whose lexicographic order differs from the numeric message-ID order
             # and with characters that URL decoding, stripping or normalising would change
-            objects['ro/%d-%s%s.mos.xml' % ((i * 7) % 11, 'abcdefgh'[i % 8], ['', '+0100', '%41', ' sp', '/./x', '\u00e9'][i % 6])] = t.encode('utf-8')
+            objects['ro/%d-%s%s.mos.xml' % ((i * 7) % 11, 'abcdefgh'[i % 8], ['', '+0100', '%41', ' sp', '/./x', '\u00e9'][i % 6])] = encode_doc(t)
         objects['ro/ignored.txt'] = b'not a mos file'
         listed = list(objects)
         decoy = b'<mos><mosID>DECOY</mosID><ncsID>NCS</ncsID><messageID>424242</messageID><roReadyToAir><roID>DECOY</roID><roAir>READY</roAir></roReadyToAir></mos>'
@@ -167,8 +174,8 @@ def run_coll(texts, allow_incomplete, strict, how='strings', tmpdir=None, again=
                     paths = []
                     for i, t in enumerate(texts):
                         p = os.path.join(tmpdir, 'f%04d.mos.xml' % i)
-                        with open(p, 'w', encoding='utf-8') as f:
-                            f.write(t)
+                        with open(p, 'wb') as f:
+                            f.write(encode_doc(t))
                         paths.append(p)
                     mc = moscollection.MosCollection.from_files(paths, allow_incomplete=allow_incomplete)
                 elif how == 's3':
